@@ -499,9 +499,80 @@ impl Model for MatModel {
     }
 }
 
+/// histories that start from a non-initial state (see the call site)
+fn filled_then_written(rep: &mut Report, only: Option<&str>) {
+    // histories that start from a non-initial state: a banded matrix whose every stored slot (also the unused
+    // corners of the band storage) was set by `fill`, then every in-band entry written to the identity's value,
+    // then optionally one entry spoiled: reads and is_identity against the dense definition
+    {
+        let mut n_hist = 0u64;
+        for n in 1..=6usize {
+            for ml in 0..=n {
+                for mu in 0..=n {
+                    for c in [1.5, 1.0, 0.0, -0.0] {
+                        for spoil in 0..3usize {
+                            let key = format!("filled-then-written:{}:{}:{}:{}:{}", n, ml, mu, c, spoil);
+                            if only.map(|o| o != key).unwrap_or(false) {
+                                continue;
+                            }
+                            let r = guarded(|| {
+                                let mut m = Matrix::banded(n, ml, mu);
+                                m.fill(c);
+                                let mut d = vec![0.0; n * n];
+                                let inband = |i: usize, j: usize| (i as isize - j as isize) <= ml as isize && (j as isize - i as isize) <= mu as isize;
+                                for i in 0..n {
+                                    for j in 0..n {
+                                        if inband(i, j) {
+                                            let v = if i == j { 1.0 } else { 0.0 };
+                                            m[(i, j)] = v;
+                                            d[i * n + j] = v;
+                                        }
+                                    }
+                                }
+                                if spoil == 1 {
+                                    m[(n - 1, n - 1)] = 0.0;
+                                    d[n * n - 1] = 0.0;
+                                }
+                                if spoil == 2 && n >= 2 && (ml >= 1 || mu >= 1) {
+                                    let (i, j) = if ml >= 1 { (1, 0) } else { (0, 1) };
+                                    m[(i, j)] = 2.0;
+                                    d[i * n + j] = 2.0;
+                                }
+                                disagree(&m, &d)
+                            });
+                            n_hist += 1;
+                            rep.evaluations += 1;
+                            rep.validated += 1;
+                            let msg = match r {
+                                Ok(None) => continue,
+                                Ok(Some(m)) => m,
+                                Err(p) => format!("panicked: {}", p),
+                            };
+                            rep.violations.push(
+                                Violation::new(&key, "filled-then-written", format!("banded({},{}) of size {} filled with {} and then written entry by entry: {}", ml, mu, n, c, msg), json!({"key": key, "n": n, "ml": ml, "mu": mu, "fill": c, "spoil": spoil})).with("constructor", "banded"),
+                            );
+                        }
+                    }
+                }
+            }
+        }
+        *rep.tags.entry("filled-then-written".into()).or_insert(0) += n_hist;
+    }
+}
+
 pub fn run(replay: Option<Value>) -> i32 {
     let mut rep = Report::new("C17", "model_checking");
     if let Some(case) = replay {
+        if let Some(key) = case["key"].as_str().filter(|k| k.starts_with("filled-then-written")) {
+            filled_then_written(&mut rep, Some(key));
+            for v in &rep.violations {
+                println!("replay: VIOLATED: {}", v.msg);
+            }
+            if rep.violations.is_empty() {
+                println!("replay: property holds on this history");
+            }
+            return if rep.violations.is_empty() { 0 } else { 1 };
+        }
         if let Some(label) = case["constructor"].as_str() {
             let n = case["n"].as_u64().unwrap_or(1) as usize;
             for (l, res, dense) in constructors(n) {
@@ -545,6 +616,7 @@ pub fn run(replay: Option<Value>) -> i32 {
     } else {
         vec![(1, 3), (2, 3), (3, 3), (4, 2), (5, 2), (8, 1)]
     };
+    filled_then_written(&mut rep, None);
     let mut lattice = vec![];
     let mut total_states = 0u64;
     let mut total_by_value = 0u64;
